@@ -23,6 +23,9 @@ MODELS_DOC = [
     "Option::map_or(default, closure) (default evaluated eagerly, closure inlined under the Some guard)",
     "Option::unwrap_or / unwrap_or_default (String, usize, bool payloads) / unwrap_or_else / map / and_then / is_some_and (closures inlined under the Some / None guard)",
     "str::split(char | &str literal): pieces between leftmost non-overlapping matches, empty pieces kept, at least one piece",
+    "str::split_once(char), str::to_lowercase / to_ascii_lowercase (ASCII), str::replace with a char-array pattern, String::into_bytes / as_bytes, String::from_utf8 / from_utf8_lossy (ASCII: always valid)",
+    "sequence adaptors next / last / nth(k) / take(n) / skip(k) / rev, Vec::dedup; a &mut method called on a temporary drops its mutation",
+    "char::is_ascii_digit / is_alphanumeric / is_alphabetic / is_lowercase / is_uppercase / is_whitespace (ASCII ranges)",
     "String::push_str / push / pop, [&str]::join(&str)",
     "format!/write!/bail! with `{}` and inline `{name}` of strings, chars, usize (decimal) and Display impls interpreted from source",
     "usize: + - (overflow = panic), saturating_sub, comparisons; 64-bit bit-vectors",
@@ -222,6 +225,16 @@ class Models:
             return mkstr("")
         if ty == "String" and name == "from":
             return it.deref(args[0])
+        if ty == "String" and name in ("from_utf8", "from_utf8_lossy"):
+            v = it.deref(args[0])
+            if isinstance(v, StrV):
+                sv = v
+            elif isinstance(v, VecV) and all(isinstance(x, CharV) for x in v.elems):
+                sv = StrV(BStr(v.n, bstr.truncate([x.term for x in v.elems], v.n)))
+            else:
+                self.uns("String::%s of %s" % (name, type(v).__name__), node)
+            # ASCII only (the string model): always valid UTF-8
+            return ok(sv) if name == "from_utf8" else sv
         if ty == "HashSet" and name == "new":
             return SetV()
         if ty == "Vec" and name == "new":
@@ -282,6 +295,19 @@ class Models:
             if m in ("clone",):
                 return None, recv
             return NotImplemented
+        if isinstance(recv, CharV):
+            c = recv.term
+            rng = lambda lo, hi: And(z3.UGE(c, bv(ord(lo), 8)), z3.ULE(c, bv(ord(hi), 8)))
+            preds = {"is_ascii_digit": lambda: rng("0", "9"), "is_numeric": lambda: rng("0", "9"),
+                     "is_ascii_lowercase": lambda: rng("a", "z"), "is_lowercase": lambda: rng("a", "z"),
+                     "is_ascii_uppercase": lambda: rng("A", "Z"), "is_uppercase": lambda: rng("A", "Z"),
+                     "is_ascii_alphabetic": lambda: Or(rng("a", "z"), rng("A", "Z")),
+                     "is_alphabetic": lambda: Or(rng("a", "z"), rng("A", "Z")),
+                     "is_ascii_alphanumeric": lambda: Or(rng("a", "z"), rng("A", "Z"), rng("0", "9")),
+                     "is_alphanumeric": lambda: Or(rng("a", "z"), rng("A", "Z"), rng("0", "9")),
+                     "is_whitespace": lambda: bstr.is_ws(c), "is_ascii_whitespace": lambda: bstr.is_ws(c)}
+            if m in preds:
+                return None, BoolV(z3.simplify(preds[m]()) if bvval(c) is not None else preds[m]())
         if isinstance(recv, (BoolV, CharV)):
             if m in ("clone",):
                 return None, recv
@@ -387,12 +413,32 @@ class Models:
             # ASCII only: bytes and chars coincide (u8 and char are both modelled as 8-bit codes)
             return None, VecV(b.n, [CharV(c) for c in b.chars])
         if m == "replace":
-            if not isinstance(args[0], CharV) or bvval(args[0].term) is None:
-                self.uns("str::replace with a non-literal char pattern", node)
+            a0 = args[0]
+            if isinstance(a0, CharV) and bvval(a0.term) is not None:
+                pat = chr(bvval(a0.term))
+            elif isinstance(a0, VecV) and bvval(a0.n) is not None and all(
+                    isinstance(x, CharV) and bvval(x.term) is not None for x in a0.elems[:bvval(a0.n)]):
+                pat = "".join(chr(bvval(x.term)) for x in a0.elems[:bvval(a0.n)])      # [c1, c2, ..] / &[..] pattern
+            elif isinstance(a0, StrV) and a0.b.concrete() is not None and len(a0.b.concrete()) == 1:
+                pat = a0.b.concrete()
+            else:
+                self.uns("str::replace with a pattern that is not a literal char / char array / 1-char &str", node)
             rep = args[1].b.concrete() if isinstance(args[1], StrV) else None
             if rep is None:
                 self.uns("str::replace with a symbolic replacement", node)
-            return None, StrV(bstr.replace_char(b, chr(bvval(args[0].term)), rep))
+            return None, StrV(bstr.replace_char(b, pat, rep))
+        if m in ("to_lowercase", "to_ascii_lowercase"):
+            return None, StrV(bstr.to_ascii_lowercase(b))
+        if m in ("into_bytes", "as_bytes", "to_vec"):
+            return None, VecV(b.n, [CharV(c) for c in b.chars])
+        if m == "split_once":
+            if not isinstance(args[0], CharV):
+                self.uns("str::split_once with a non-char pattern", node)
+            pat = args[0].term
+            found, idx = bstr.find_char(b, lambda c: Eq(c, pat))
+            left = bstr.prefix(b, idx)
+            right = bstr.substr_from(b, Add(idx, L(1))).tight()
+            return None, option(found, TupleV([StrV(left), StrV(right)]))
         if m == "to_snake_case":
             return None, StrV(self.snake(b, node))
         if m == "contains" and isinstance(args[0], CharV) and bvval(args[0].term) is not None:
@@ -449,6 +495,44 @@ class Models:
             return None, VecV(recv.n, [TupleV([IntV.const(i), x]) for i, x in enumerate(recv.elems)])
         if m == "collect":
             return None, recv
+        if m == "next":
+            some = Not(Eq(recv.n, L(0)))
+            first = recv.elems[0] if recv.elems else None
+            rest = VecV(Ite(some, Sub(recv.n, L(1)), recv.n), recv.elems[1:])
+            return rest, (option(some, first) if first is not None else none())
+        if m == "last":
+            if not recv.elems:
+                return None, none()
+            acc = recv.elems[0]
+            for k in range(1, len(recv.elems)):
+                acc = merge(Eq(recv.n, L(k + 1)), recv.elems[k], acc, "last")
+            return None, option(Not(Eq(recv.n, L(0))), acc)
+        if m in ("nth", "take", "skip"):
+            if not isinstance(args[0], IntV):
+                self.uns("%s with a non-integer argument" % m, node)
+            k = bvval(args[0].term)
+            if m == "take":
+                kk = ZeroExt(args[0].term, LB)
+                big = z3.UGE(args[0].term, ZeroExt(recv.n, IW)) if k is None else (TRUE if k >= len(recv.elems) else Ule(recv.n, L(k)))
+                n2 = Ite(big, recv.n, kk)
+                return None, VecV(n2, recv.elems if k is None else recv.elems[:k])
+            if k is None:
+                self.uns("%s with a symbolic count" % m, node)
+            if m == "skip":
+                return None, VecV(Ite(Ult(L(min(k, 255)), recv.n), Sub(recv.n, L(min(k, 255))), L(0)), recv.elems[k:])
+            el = recv.elems[k] if k < len(recv.elems) else None
+            rest = VecV(Ite(Ult(L(min(k, 255)), recv.n), Sub(recv.n, L(min(k + 1, 255))), L(0)), recv.elems[k + 1:])
+            return rest, (option(Ult(L(k), recv.n), el) if el is not None else none())
+        if m == "dedup":
+            keeps = []
+            for i, x in enumerate(recv.elems):
+                g = Ult(L(i), recv.n)
+                keeps.append(g if i == 0 else And(g, Not(val_eq(x, recv.elems[i - 1]))))
+            if all(isinstance(x, CharV) for x in recv.elems):
+                cb = bstr.compact([x.term for x in recv.elems], keeps)
+                return VecV(cb.n, [CharV(c) for c in cb.chars]), UNIT
+            n2, out = self.compact_vals(recv.elems, keeps)
+            return VecV(n2, out), UNIT
         if m == "rev":
             n = bvval(recv.n)
             if n is not None:
@@ -517,20 +601,7 @@ class Models:
                         self.uns("filter_map closure not returning Option", node)
                     keeps.append(And(g, r.is_variant("Some")))
                     vals.append(r.payload["Some"][0] if r.payload.get("Some") else None)
-            cnt = L(0)
-            pos = []
-            for kp in keeps:
-                pos.append(cnt)
-                cnt = Add(cnt, b2bv(kp, LB))
-            out = []
-            for j in range(len(vals)):
-                acc = None
-                for k in range(len(vals) - 1, j - 1, -1):
-                    if vals[k] is None:
-                        continue
-                    acc = vals[k] if acc is None else merge(And(keeps[k], Eq(pos[k], L(j))), vals[k], acc, "filter")
-                if acc is not None:
-                    out.append(acc)
+            cnt, out = self.compact_vals(vals, keeps)
             return None, VecV(cnt, out)
         if m == "join":
             if not isinstance(args[0], StrV):
@@ -542,6 +613,24 @@ class Models:
         if m == "contains":
             return None, BoolV(Or(*[And(Ult(L(i), recv.n), val_eq(x, args[0])) for i, x in enumerate(recv.elems)]))
         return NotImplemented
+
+    def compact_vals(self, vals, keeps):
+        """stable filter of a list of values by symbolic keep flags -> (count, values)"""
+        cnt = L(0)
+        pos = []
+        for kp in keeps:
+            pos.append(cnt)
+            cnt = Add(cnt, b2bv(kp, LB))
+        out = []
+        for j in range(len(vals)):
+            acc = None
+            for k in range(len(vals) - 1, j - 1, -1):
+                if vals[k] is None:
+                    continue
+                acc = vals[k] if acc is None else merge(And(keeps[k], Eq(pos[k], L(j))), vals[k], acc, "filter")
+            if acc is not None:
+                out.append(acc)
+        return cnt, out
 
     def guarded_call(self, g, clo, cargs, node):
         it = self.it
